@@ -116,6 +116,25 @@ def post_cformats(V):
                                      'value': v + ' (tainted)', 'got': got[:200]})
 
 
+def post_epfs_conversions(V):
+    """the conversion character of the %(name)fmt syntax with an untrusted value it does not fit (%(x)d, %(x)5.1f, %(x)X, %(x)c):
+    refused or formatted, never raw"""
+    from AccessControl.tainted import TaintedString
+    from DocumentTemplate.DT_String import String
+    for conv in ('d', '5d', '.2f', '5.1f', 'X', 'x', 'c', 'e', 'G', 'o', 'i', 'r', 'a', '10s', '.3s', '-8s'):
+        for opts in ('', ' upper', ' html_quote', ' size=50', ' null=n', ' thousands_commas', ' url_unquote'):
+            for v in ('<Q>alert(1)</Q>', '12<Q', '<'):
+                src = 'n: %%(x%s)%s' % (opts, conv)
+                V.count('renderings')
+                try:
+                    got = str(String(src)(x=TaintedString(v)))
+                except Exception:  # noqa
+                    continue
+                if '<' in got.replace('&lt;', ''):
+                    V.violation({'kind': 'departure', 'clause': 'raw-lt', 'cls': 'epfs-conversion-misfit', 'source': src,
+                                 'value': v + ' (tainted)', 'got': got[:200]})
+
+
 def post_wrappers(V):
     """results of the string helper wrappers (DT_Util.StringModuleWrapper) computed from an untrusted argument are untrusted
     too: inserted as the direct result of an expression they are escaped"""
@@ -144,6 +163,7 @@ def main(tier):
         post(V)
         post_markup(V)
         post_cformats(V)
+        post_epfs_conversions(V)
         post_wrappers(V)
     return vc.run(PID, tier, sweeps(tier), classify, post=both,
                   invs=['NoRawLT', 'OnceNotTwice', 'NoRawSpecial', 'TruncBound'],
